@@ -242,7 +242,8 @@ def run_c07_abort(sc):
                         continue
                     if e["t"] + d_us + 200_000 >= end_t:
                         continue
-                    fired = any(x[K] == "trans" and x[4] == root and x[7] == f"after.{dkey}.{sid}" and x[SEQ] > e["seq"] for x in res.trace)
+                    # re-armed = the expiry is delivered again (the transition it drives may abort again)
+                    fired = any(x[K] == "recv" and x[4] == root and x[5] == f"after.{dkey}.{sid}" and x[SEQ] > e["seq"] for x in res.trace)
                     was_exited_by_abort = any(x[K] == "act" and x[4] == root and x[5] == "ex." + sid and x[SEQ] < e["seq"] for x in res.trace)
                     if not fired and was_exited_by_abort:
                         vios.append(Violation("C07", "rollback-timer-not-rearmed", sig,
